@@ -30,6 +30,9 @@ type Scenario struct {
 	Replicas  int        `json:"replicas"`
 	Steps     []StepSpec `json:"steps"`
 	RolloutID bool       `json:"rolloutID"`
+	// RolloutIDAnno: the id is also mirrored into the annotation of the same name (the admission webhook reads the
+	// annotation, the controllers read the label; the API documents the label)
+	RolloutIDAnno bool `json:"rolloutIDAnno,omitempty"`
 	Traffic   string     `json:"traffic"` // none | ingress-nginx | ...
 	GraceSec  int        `json:"graceSec"`
 	FailThr   string     `json:"failureThreshold,omitempty"`
